@@ -311,6 +311,12 @@ func newInstall(cfg *action.Configuration, skip bool) *action.Install {
 	return in
 }
 
+// isSchemaComplaint recognises a schema rejection in an error text (the gate's own message, the lint values rule's
+// bare validation errors, or any other wording that speaks of a schema).
+func isSchemaComplaint(msg string) bool {
+	return strings.Contains(msg, schemaErrPrefix) || strings.Contains(msg, "- at '") || strings.Contains(strings.ToLower(msg), "schema")
+}
+
 // lintOp runs helm lint on the chart tree written under dir.
 func lintOp(c *Case, dir string, skip bool, vals map[string]interface{}) (o OpObs) {
 	o = OpObs{Mode: "lint", Skip: skip, Named: []string{}}
@@ -329,12 +335,10 @@ func lintOp(c *Case, dir string, skip bool, vals map[string]interface{}) (o OpOb
 		if m.Severity >= 3 { // support.ErrorSev
 			txt := m.Path + ": " + m.Err.Error()
 			msgs = append(msgs, txt)
-			if strings.Contains(txt, schemaErrPrefix) {
+			if isSchemaComplaint(m.Err.Error()) {
+				// whichever lint rule speaks: a complaint about values not meeting a schema is the schema step rejecting
 				o.SchemaErr = true
 				o.Named = append(o.Named, namedCharts(c, m.Err.Error())...)
-			} else if m.Path == "values.yaml" && strings.Contains(txt, "- at '") {
-				// the values.yaml rule validates the linted chart's own values file against its schema
-				o.SchemaErr = true
 			}
 		}
 	}
